@@ -97,12 +97,29 @@ fn mh_case(ctx: &Ctx, n: usize, seed: Option<u64>) {
         };
         let same_within: Option<usize> = s.chains.iter().position(|c| c.rng == c.proposal.rng);
         let props: Vec<SmallRng> = s.chains.iter().map(|c| c.proposal.rng.clone()).collect();
-        (same_within, first_pair(&props))
+        // no generator of ANY chain equals a generator of another chain: proposal stream of i vs acceptance stream of j
+        let mut cross: Option<(usize, usize)> = None;
+        'outer: for (i, ci) in s.chains.iter().enumerate() {
+            for (j, cj) in s.chains.iter().enumerate() {
+                if i != j && ci.proposal.rng == cj.rng {
+                    cross = Some((i, j));
+                    break 'outer;
+                }
+            }
+        }
+        (same_within, first_pair(&props), cross)
     });
     ctx.transitions(1);
     match r {
         Err(m) => ctx.violation(Violation::new("C08:panic(MH)", format!("MH/user proposal with {n} chains, seed {}: {m}", sd(seed)), case)),
-        Ok((w, p)) => {
+        Ok((w, p, x)) => {
+            if let Some((i, j)) = x {
+                ctx.violation(Violation::new(
+                    format!("C08:mh-proposal-stream-is-another-chains-accept-stream({tag})"),
+                    format!("MH with a user-defined seedable proposal ({n} chains, seed {}): chain {i}'s proposal generator is identical to chain {j}'s acceptance generator — two chains consume one stream", sd(seed)),
+                    case.clone(),
+                ));
+            }
             if let Some(c) = w {
                 ctx.violation(Violation::new(format!("C08:mh-accept-equals-proposal-stream({tag})"), format!("MH ({n} chains, seed {}): chain {c}'s acceptance generator is seeded identically to its proposal generator", sd(seed)), case.clone()));
             }
@@ -222,7 +239,7 @@ fn proposal_seeding(ctx: &Ctx) {
 }
 
 pub fn run(ctx: &Ctx) {
-    ctx.rule("grid: n_chains in the stated set x seeds {unseeded, 0, 1, 42, 2^32, u64::MAX-40, u64::MAX-1, u64::MAX} x {MH with the library proposal, MH with a user-defined seedable proposal, HMC (recorded momenta/uniforms per row), NUTS}; all chains start from one common state; pairwise comparison of generators, first proposals, recorded draws and 64-step (MH) / 3-step trajectories. states = distinct (sampler, n_chains, seed) configurations; transitions = chain steps executed; non-trivial = a configuration whose chains are pairwise distinct");
+    ctx.rule("grid: n_chains in the stated set x seeds {unseeded, 0, 1, 42, 2^32, u64::MAX-40, u64::MAX-1, u64::MAX} x {MH with the library proposal, MH with a user-defined seedable proposal, HMC (recorded momenta/uniforms per row), NUTS}; all chains start from one common state; pairwise comparison of generators (proposal vs proposal, acceptance vs acceptance, and every chain's proposal generator vs every chain's acceptance generator), first proposals, recorded draws and 64-step (MH) / 3-step trajectories. states = distinct (sampler, n_chains, seed) configurations; transitions = chain steps executed; non-trivial = a configuration whose chains are pairwise distinct");
     proposal_seeding(ctx);
     let ns: Vec<usize> = if ctx.tier.thorough() { (2..=64).collect() } else { vec![2, 3, 8, 64] };
     ctx.extra("n_chains", json!(if ctx.tier.thorough() { "2..=64 (all)".to_string() } else { format!("{ns:?}") }));
